@@ -812,6 +812,22 @@ pub fn run(ctx: &Ctx) -> i32 {
                     s.height += 1.0;
                 }
             }),
+            // (edits that keep every count: an obstacle moved, a window resized, a wall turned)
+            ("every shade lifted 1 km", |m| {
+                for s in m.shades.iter_mut() {
+                    if let Some(p) = s.geometry.position.as_mut() {
+                        p.z += 1000.0;
+                    }
+                }
+            }),
+            ("first window half as wide, last wall turned by 90 degrees", |m| {
+                if let Some(w) = m.windows.first_mut() {
+                    w.geometry.width *= 0.5;
+                }
+                if let Some(w) = m.walls.last_mut() {
+                    w.geometry.azimuth += 90.0;
+                }
+            }),
             ("purged", |m| {
                 let _ = bemodel::purge_unused(m);
             }),
